@@ -54,6 +54,7 @@ var c07BugMuts = map[string]bool{
 var c07IdentMuts = map[string]bool{
 	"none": false, "idv-not-json": true, "idv-wrong-version": true, "idv-two-entries": true, "idv-bad-entry-name": true,
 	"idv-ref-mismatch": true, "idv-empty-name": true, "idv-ctrl-char": true, "idv-tree-as-version": true, "idv-ref-to-blob": true,
+	"idv-null-key": true, "idv-bad-key": true, "idv-times-string": true, "idv-no-nonce": true,
 }
 
 func (c07Driver) Gen(r *Rand, tier string) []json.RawMessage {
@@ -487,6 +488,18 @@ func (c07Driver) Run(raw json.RawMessage) Case {
 			es[0].Hash = blobOf(m)
 		case "idv-ctrl-char":
 			m["name"] = "evil\u0007name"
+			es[0].Hash = blobOf(m)
+		case "idv-null-key":
+			m["pub_keys"] = []interface{}{nil}
+			es[0].Hash = blobOf(m)
+		case "idv-bad-key":
+			m["pub_keys"] = []interface{}{map[string]interface{}{"pub_key": "not an armored key"}}
+			es[0].Hash = blobOf(m)
+		case "idv-times-string":
+			m["times"] = "soon"
+			es[0].Hash = blobOf(m)
+		case "idv-no-nonce":
+			delete(m, "nonce")
 			es[0].Hash = blobOf(m)
 		case "idv-tree-as-version":
 			sub, _ := repoB.StoreTree([]repository.TreeEntry{{ObjectType: repository.Blob, Hash: emptyBlob, Name: "x"}})
